@@ -44,11 +44,14 @@ mod twin {
         r <= p && (r == 0 || s[r - 1] == t) && count_terms(s, t, r, p) == core::cmp::min(count, total)
     }
     pub(crate) fn strip_ok(s: &[u8], crlf: bool, t: u8) -> bool {
+        // C01: "the line's content with its terminator removed": a line ends at the terminator byte (`\n` for
+        // CRLF); with CRLF the `\r` before it is optional and belongs to the terminator when present
         let lt = if crlf { LineTerminator::crlf() } else { LineTerminator::byte(t) };
         let r = without_terminator(s, lt);
-        let term: &[u8] = if crlf { b"\r\n" } else { core::slice::from_ref(&t) };
-        if s.len() >= term.len() && &s[s.len() - term.len()..] == term {
-            r == &s[..s.len() - term.len()]
+        let tb = if crlf { b'\n' } else { t };
+        if !s.is_empty() && s[s.len() - 1] == tb {
+            let l1 = &s[..s.len() - 1];
+            if crlf && !l1.is_empty() && l1[l1.len() - 1] == b'\r' { r == &l1[..l1.len() - 1] } else { r == l1 }
         } else {
             r == s
         }
